@@ -220,6 +220,19 @@ func (v *Verifier) generate(u *Unit) *UnitResult {
 			t.assume(t.spec(cl.Expr, sc))
 		}
 	}
+	// deferred-call registration flags start out false
+	nd := 0
+	ast.Inspect(u.Body, func(n ast.Node) bool {
+		switch n.(type) {
+		case *ast.FuncLit:
+			return false
+		case *ast.DeferStmt:
+			nd++
+			fv := t.newVar(fmt.Sprintf("deferred$%d", nd), SBool, types.Typ[types.Bool], false)
+			t.assign(fv, tFalse)
+		}
+		return true
+	})
 	t.cover("entry", u.Body.Pos())
 	// body
 	t.stmts(u.Body.List)
@@ -425,28 +438,16 @@ func (t *tr) runDefer(d *deferRec) {
 		t.inlineLit(lit, d.call.Args, d.pos)
 		return
 	}
-	// arguments were evaluated at the defer statement: require that the variables they mention are unchanged
-	ast.Inspect(d.call, func(n ast.Node) bool {
-		if id, ok := n.(*ast.Ident); ok {
-			if o, ok := t.info.Uses[id].(*types.Var); ok {
-				if lv, ok := t.vars[o]; ok && !lv.Heap {
-					if d.env[lv] != t.cur.Env[lv] {
-						isResult := false
-						for _, r := range t.results {
-							if r == lv {
-								isResult = true
-							}
-						}
-						if !isResult {
-							t.errorf(d.pos, "deferred call mentions %s, which changes after the defer statement (unsupported)", id.Name)
-						}
-					}
-				}
-			}
-		}
-		return true
-	})
+	// arguments were evaluated at the defer statement: evaluate the call with the snapshots taken there
+	saved := map[types.Object]*Var{}
+	for o, sv := range d.snap {
+		saved[o] = t.vars[o]
+		t.vars[o] = sv
+	}
 	t.evCall(d.call)
+	for o, lv := range saved {
+		t.vars[o] = lv
+	}
 }
 
 // freeVars returns the variables captured by a function literal.
